@@ -691,6 +691,44 @@ def gen_fail(rng):
     return dict(envs=[env], ops=ops, files=files, failkind=kind)
 
 
+def gen_decode_carry(rng):
+    """A decode=True command whose output so far ends INSIDE a multi-byte UTF-8 sequence hangs and times out; the next commands on the same object must
+    return exactly their own output (nothing of the unfinished sequence may be carried over), whatever their first bytes are."""
+    tails = [b"\xc3", b"\xe2\x82", b"\xf0\x9f\x98", b"abc\xc3", b"\xe2", b"ok\n\xf0\x9f"]
+    heads = [b"hello", b"\xa9llo", b"\x82\xac 5", b"\x98\x80!", b"", b"\xc3\xa9", b"\xff", b"plain\n"]
+    shell = {b"hang": split_chunks(rng, rng.choice([b"", b"line 1\n"]) + rng.choice(tails))}
+    ops = [connect_op(rng), dict(op=rng.choice(["shell", "exec_out"]), cmd=b"hang", decode=True, rt=rng.choice([512, 1024]), tt=rng.choice([256, 512]), t=rng.choice([None, 700]))]
+    for i in range(rng.randrange(1, 4)):
+        cmd = b"n%d" % i
+        shell[cmd] = split_chunks(rng, rng.choice(heads) + rng.choice([b"", b" and more \xe2\x82\xac", b"\n"]))
+        ops.append(dict(op=rng.choice(["shell", "exec_out", "streaming_shell", "shell"]), cmd=cmd, decode=rng.random() < 0.85))
+    sim = dict(maxdata=4096, shell=shell, never_close_cmds=[b"hang"], remote_ids=rand_remote_ids(rng))
+    env = base_env(rng, sim)
+    env["dt"] = max(1, env.get("dt", 1))
+    return dict(envs=[env], ops=ops, files={}, healthy=False)
+
+
+def gen_trailing_then(rng):
+    """list / stat whose reply is followed by more bytes on the stream (still in flight when the host closes it), then further list / stat calls on the same
+    object: each call returns exactly the records of ITS OWN reply."""
+    ops = [connect_op(rng)]
+    extra = b"".join(sync_rec(b"DENT", 7, 8, 9, 3, data=b"old") for _ in range(rng.choice([1, 2, 5]))) + rng.choice([b"", sync_rec(b"STAT", 4, 5, 6), b"DEN"])
+    fs, stat = {}, {}
+    for i in range(rng.randrange(2, 5)):
+        path = b"/p%d" % i
+        if rng.random() < 0.5:
+            ents = [(rand_name(rng), rand_u32(rng), rand_u32(rng), rand_u32(rng)) for _ in range(rng.choice([0, 1, 3]))]
+            raw = b"".join(sync_rec(b"DENT", m, sz, mt, len(nm), data=nm) for nm, m, sz, mt in ents) + sync_rec(b"DONE", 0, 0, 0, 0)
+            fs[path] = ("raw", raw + (extra if i == 0 or rng.random() < 0.4 else b""))
+            ops.append(dict(op="list", path=path))
+        else:
+            trip = (rand_u32(rng), rand_u32(rng), rand_u32(rng))
+            stat[path] = ("raw", sync_rec(b"STAT", *trip) + (extra if i == 0 or rng.random() < 0.4 else b""))
+            ops.append(dict(op="stat", path=path))
+    sim = dict(maxdata=rng.choice([4096, 65536]), fs=fs, stat=stat, burst=True, wrte_split=rng.choice([None, [8], [11], [20], [5, 40], [16, 4]]), remote_ids=rand_remote_ids(rng))
+    return dict(envs=[base_env(rng, sim)], ops=ops, files={}, healthy=False)
+
+
 def gen_corrupt(rng):
     base = rng.choice([gen_shell, gen_sync_read, gen_mixed])(rng)
     kind = rng.choice(["sum", "cmd"])
